@@ -96,6 +96,7 @@ def main(run):
     run.prove()
     model_ok = run.build_model()
     run.run_findings()
+    run.pylite(['frame'])
     if model_ok:
         bad = run.differential(cases(run))
         for what, c, m in bad:
